@@ -67,21 +67,48 @@ def jobs(ctx):
     return sel
 
 
+def tie_jobs(ctx):
+    """exactly coinciding event times (sampling 0.5, chain time 0.75, end time 6.0, dumps every 0.7)"""
+    base = "config_files/2018_JCP_149_064113/"
+    ov = {"FixedIntervalSamplingEventHandler": {"sampling_interval": 0.5},
+          "SingleIndependentActivePeriodicDirectionEndOfChainEventHandler": {"chain_time": 0.75},
+          "FinalTimeEndOfRunEventHandler": {"end_of_run_time": 6.0}}
+    out = []
+    for c, sched in ((base + "coulomb_atoms/power_bounded.ini", "heap_scheduler"),
+                     (base + "coulomb_atoms/power_bounded.ini", "list_scheduler"),
+                     (base + "coulomb_atoms/cell_bounded.ini", "heap_scheduler")):
+        o = json.loads(json.dumps(ov))
+        o["SingleProcessMediator"] = {"scheduler": sched}
+        out.append({"config": c, "overrides": o, "seed": ctx.seed, "dump_interval": 0.7, "max_legs": 2500,
+                    "leftover": False, "ties": True})
+    return out
+
+
+def tie_swap(a, b, k):
+    """legs k, k+1 of a and b are the same two events at exactly the same time in opposite order"""
+    if k + 1 >= len(a) or k + 1 >= len(b):
+        return False
+    ts = {json.dumps(x["time"]) for x in (a[k], a[k + 1], b[k], b[k + 1])}
+    return len(ts) == 1 and a[k]["pick"] == b[k + 1]["pick"] and a[k + 1]["pick"] == b[k]["pick"] \
+        and a[k]["pick"] != a[k + 1]["pick"]
+
+
 def run(ctx, replay_jobs=None):
     C.build_scratch(ctx, exts=("heap", "mic", "ipc"))
     broken = []
     ok, out, nthm = C.check_props(ctx)
     if not ok:
         broken.append("Props/C19.v does not check: " + out[-600:])
-    js = replay_jobs or [{"config": c, "overrides": ov, "seed": ctx.seed + i,
-                          "dump_interval": ctx.rng.choice([0.02, 0.05, 0.11]), "max_legs": ctx.n(260, 900)}
-                         for i, (c, ov) in enumerate(jobs(ctx))]
+    js = replay_jobs or ([{"config": c, "overrides": ov, "seed": ctx.seed + i,
+                           "dump_interval": ctx.rng.choice([0.02, 0.05, 0.11]), "max_legs": ctx.n(260, 900),
+                           "leftover": i % 2 == 0}
+                          for i, (c, ov) in enumerate(jobs(ctx))] + tie_jobs(ctx))
     pay = []
     for i, j in enumerate(js):
         pay.append(dict(j, mode="run", dump_name="dumps_j%d_dump.dat" % i))
         pay.append(dict(j, mode="run", dump_interval=None, dump_name=None))
     res = C.run_driver_parallel(ctx, "c19_dump", pay, timeout=1500)
-    fails, dterms, iterms, samples = [], [], [], []
+    fails, dterms, iterms, samples, f8 = [], [], [], [], []
     n_dumps = n_legs_cmp = 0
     resume_pay, resume_ref = [], []
     for i, j in enumerate(js):
@@ -117,14 +144,37 @@ def run(ctx, replay_jobs=None):
             carry_c, carry_t = [], []
         b = [l for l in wo["legs"] if complete(l)]
         m = min(len(a), len(b))
-        for k in range(m):
+        k = 0
+        relax = False
+        while k < m:
             df = leg_diff(a[k], b[k])
+            if relax:
+                # the leg after a swapped pair pushes the candidates created by the other event of the pair
+                df = [f for f in df if f not in ("cands", "to_run")]
+                relax = False
+            if df and w["meta"]["scheduler"] == "HeapScheduler" and a[k]["time"] == b[k]["time"]:
+                # a group of exactly simultaneous events: known finding F8 if the two runs commit the same events
+                # of the group in a different order (or the group contains the end of the run, which cuts it short)
+                t = a[k]["time"]
+                ga = [x["pick"] for x in a[k:] if x["time"] == t][:len([1 for x in a[k:k + 8] if x["time"] == t])]
+                gb = [x["pick"] for x in b[k:] if x["time"] == t][:len([1 for x in b[k:k + 8] if x["time"] == t])]
+                kinds = {TC.handler_kind(meta, h) for h in ga + gb}
+                if len(ga) > 1 or len(gb) > 1:
+                    if sorted(ga) == sorted(gb):
+                        f8.append({"config": j["config"], "commit": k, "time": t, "handlers": [ga, gb]})
+                        k += len(ga)
+                        relax = True
+                        continue
+                    if "end_of_run" in kinds:
+                        f8.append({"config": j["config"], "commit": k, "time": t, "handlers": [ga, gb]})
+                        break
             if df:
                 fails.append({"job": j, "msg": "run with dumping differs from the run without at commit %d in %r"
                               % (k, df), "detail": [[a[k].get(f), b[k].get(f)] for f in df][:2]})
                 break
+            k += 1
         n_legs_cmp += m
-        if dh and m:
+        if dh and m and not any(x["config"] == j["config"] and j.get("ties") for x in f8):
             mm = min(m, ctx.n(80, 250))
             wl = [l for l in w["legs"] if complete(l)]
             # take a prefix of the dumping run that contains mm non-dumping legs
@@ -177,6 +227,10 @@ def run(ctx, replay_jobs=None):
             if err:
                 broken.append(name + " case files did not evaluate: " + err[-600:])
             mism += len(bad)
+    if f8:
+        C.known(ctx, "F8", "%d pair(s) of exactly simultaneous events committed in the opposite order by the run that "
+                "writes dumps (heap scheduler), e.g. %s commit %d handlers %r" % (
+                    len(f8), f8[0]["config"], f8[0]["commit"], f8[0]["handlers"]))
     if fails:
         f = fails[0]
         C.violation(ctx, "oracle", {"kind": "c19", "jobs": [f["job"]], "message": f["msg"], "dump_leg": f.get("dump_leg"), "detail": f.get("detail"),
